@@ -487,6 +487,15 @@ func racePass(rep *kit.Report) {
 	out, _ := run.CombinedOutput()
 	text := string(out)
 	if !strings.Contains(text, "RACE-PASS-DONE") {
+		// a panic in a goroutine that the proxy started (the fail_timeout timer, say) ends the free-running process:
+		// that is the code under test failing, as long as the top frame after the panic lies in casket
+		if i := strings.Index(text, "\npanic: "); i >= 0 || strings.HasPrefix(text, "panic: ") {
+			if strings.Contains(text[max(i, 0):], "github.com/tmpim/casket/caskethttp/proxy.") {
+				msg := strings.SplitN(strings.TrimPrefix(text[max(i, 0):], "\n"), "\n", 2)[0]
+				rep.Violation("C14/process-terminated-in-the-free-running-pass", "concurrent proxied requests (succeeding, failing, cancelled, panicking backends) ended the process: "+msg, c14case{Failure: tail(text, 1200)})
+				return
+			}
+		}
 		rep.Broken("race pass did not complete: %s", tail(text, 1500))
 	}
 	blocks := strings.Split(text, "WARNING: DATA RACE")
